@@ -189,8 +189,9 @@ func dumpTo(b *strings.Builder, v any, modEmpty bool) {
 	}
 }
 
-// aliasDump is dump plus the sharing structure: every non-empty container is
-// numbered in traversal order and a container reached a second time (the same
+// aliasDump is dump plus the sharing structure: every container with an
+// identity (any non-nil map, any slice with a backing store) is numbered in
+// traversal order and a container reached a second time (the same
 // map, or a slice with the same backing store) is rendered as ^n. Two
 // histories that produce equal-looking trees with different sharing therefore
 // get different state keys. It also returns whether any sharing was seen.
@@ -202,7 +203,7 @@ func aliasDump(v any) (string, bool) {
 	walk = func(v any) {
 		switch tv := v.(type) {
 		case []any:
-			if len(tv) == 0 {
+			if cap(tv) == 0 {
 				b.WriteString("[]")
 				return
 			}
@@ -222,7 +223,7 @@ func aliasDump(v any) (string, bool) {
 			}
 			b.WriteByte(']')
 		case map[string]any:
-			if len(tv) == 0 {
+			if tv == nil {
 				b.WriteString("{}")
 				return
 			}
